@@ -17,6 +17,11 @@ PROGRAMS = {
     "swallower_loud": ("while not stop_flag[0]:\n    try:\n        while not stop_flag[0]:\n            print('s')\n"
                        "    except BaseException:\n        pass\n"),
     "blocked": "gate.acquire()\nprint('woke')\n",
+    # a retry loop that catches Exception (not BaseException): the injected SystemExit must get through
+    "catcher": ("n = 0\nwhile not stop_flag[0]:\n    try:\n        while not stop_flag[0]:\n            n += 1\n"
+                "            if n % 50 == 0:\n                print('s')\n    except Exception:\n        pass\n"),
+    "catcher_loud": ("while not stop_flag[0]:\n    try:\n        while not stop_flag[0]:\n            print('s')\n"
+                     "    except Exception:\n        pass\n"),
     "finisher": "for i in range(FIN_N):\n    pass\nprint('s')\n",
     "finisher_sync": "print('s')\nvsync('T:step')\nprint('s')\nvsync('T:step')\n",
     "raiser_late": "for i in range(FIN_N):\n    pass\nraise ValueError('late')\n",
@@ -39,7 +44,10 @@ def run_kind(kind, allowed=0.08, fin_n=200000, controller=None):
     from pedal.sandbox import commands as C
     orig_out, orig_sleep = sys.stdout, time.sleep
     report = Report()
-    src = PROGRAMS[kind]
+    # suffix _tn: the LATER execution is threaded too (and, for a blocked student, releases the lock it waits for)
+    next_threaded = kind.endswith("_tn")
+    base = kind[:-3] if next_threaded else kind
+    src = PROGRAMS[base]
     report.contextualize(Submission(files={"answer.py": src}))
     sb = report["sandbox"]["sandbox"]
     sb.allowed_time = allowed
@@ -70,8 +78,12 @@ def run_kind(kind, allowed=0.08, fin_n=200000, controller=None):
         controller.before_next_run()
     try:
         # (for the loud swallower the later run is long enough for the zombie thread to be scheduled)
-        nxt = "for i in range(400000):\n    pass\nprint('n')" if kind == "swallower_loud" else "print('n')"
-        sb.run(nxt, filename="answer.py", threaded=False)
+        nxt = "for i in range(400000):\n    pass\nprint('n')" if base in ("swallower_loud", "catcher_loud") else "print('n')"
+        if next_threaded:
+            # long enough for the abandoned thread to be scheduled and die while this execution is under way
+            nxt = ("gate.release()\n" if base == "blocked" else "") + "for i in range(300000):\n    pass\nprint('n')"
+            sb.allowed_time = 5.0
+        sb.run(nxt, filename="answer.py", threaded=next_threaded)
         o["next_status"] = "returned"
     except BaseException as e:
         o["next_status"] = "raised:%s" % type(e).__name__
@@ -82,7 +94,7 @@ def run_kind(kind, allowed=0.08, fin_n=200000, controller=None):
     # ---- let the abandoned thread die (it can not, for the swallower, until we tell it to stop)
     if controller is not None:
         controller.release_all()
-    if kind != "blocked":
+    if base != "blocked":
         stop_flag[0] = True
         gate.release()
     deadline = time.time() + 2.0
@@ -105,6 +117,8 @@ def run_kind(kind, allowed=0.08, fin_n=200000, controller=None):
         for t in mine:
             t.join(1.0)
         o["blocked_thread_alive_after_release"] = any(t.is_alive() for t in mine)
+    elif base == "blocked":
+        stop_flag[0] = True
     while sb._current_patches:
         sb._stop_patches()
     sys.stdout, time.sleep = orig_out, orig_sleep
@@ -129,12 +143,19 @@ def judge(o, bound_extra=2.0):
         bad.append("StacksEmpty")
     if o["next_status"] != "returned" or o["next_exc"] != "none" or o["next_output"] != "n\n":
         bad.append("NextRunClean")
+    # an abandoned thread that can be interrupted (everything but a swallower, or a thread still blocked on its lock)
+    # must be dead once things are quiet: a thread that keeps running keeps altering later executions
+    if "thread_alive_at_quiescence" in o and o["kind"].split("_")[0] not in ("swallower",) and o["kind"] != "blocked" \
+            and o["thread_alive_at_quiescence"]:
+        bad.append("AbandonedThreadDies")
     return bad
 
 
 def free_chunk(cases, extra):
+    import os
     from engine.core import setup_repo_path
     setup_repo_path()
+    sys.stdout = open(os.devnull, "w")     # zombie threads print to the worker's real stdout; results travel by pipe
     out = []
     for kind, allowed, fin_n in cases:
         o = run_kind(kind, allowed, fin_n)
